@@ -16,21 +16,23 @@ from mc.report import Violation
 
 import desper
 
-RULE = ('E1 breadth-first search over histories of the seven operations '
-        '(h(), m["r/k"], m["r"]["k"], s.r.k, s["r"]["k"], '
-        's.get("r").get("k")(), h.clear()) on one real counting Handle stored '
-        'at r/k of a real ResourceMap whose static snapshot s is taken up '
-        'front; one exploration per loaded value in {None, 0, "", [], '
-        'object(), __eq__ -> False, __eq__ raises, __bool__ raises}.  '
-        'Part "fixpoint/<value>": states merged on the canonical key (model '
-        '(accessed since clear, loads in this epoch) + generic object graph '
-        'of map, handle and snapshot), explored until no new state appears.  '
-        'Part "histories/<value>": no merging at all (the key is the whole '
-        'history), every history up to the stated depth.  Every transition '
-        'is executed on the implementation; non-trivial = the transition '
-        'exercised a named shortcut (cache hit on a falsy value, reload '
-        'after clear, static attribute access, clear of an uncached handle, '
-        'second clear in a row ...).')
+RULE = ('Operations: h(), m["r/k"], m["r"]["k"], s.r.k, s["r"]["k"], '
+        's.get("r").get("k")() and h.clear() on one real counting Handle '
+        'stored at r/k of a real ResourceMap whose static snapshot s is '
+        'taken up front; everything is repeated per loaded value in {None, '
+        '0, "", [], object(), __eq__ -> False, __eq__ raises, __bool__ '
+        'raises}.  Parts "fixpoint/<value>" (E1): breadth-first search, '
+        'states merged on the canonical key (model (accessed since clear, '
+        'loads in this epoch, an earlier epoch had an access) + generic '
+        'object graph of map, handle and snapshot), explored until no new '
+        'state appears.  Part "histories" (no merging): every one of the '
+        '7^D operation sequences of length D (all shorter histories are '
+        'their prefixes), the step oracle and the state oracle evaluated '
+        'after every operation.  Every operation is executed on the '
+        'implementation; non-trivial = the transition / history exercised '
+        'a named shortcut (cache hit on a falsy value, reload after clear, '
+        'static attribute access, clear of an uncached handle, two clears '
+        'in a row ...).')
 
 VALUES = ('none', 'zero', 'empty_str', 'empty_list', 'object', 'eq_false',
           'eq_raises', 'bool_raises')
@@ -44,6 +46,7 @@ FAMILY = {'call': 'handle', 'map_composite': 'map', 'map_chained': 'map',
           'static_attr': 'static', 'static_item': 'static',
           'static_get': 'static'}
 DEPTH = {'quick': 4, 'thorough': 6}
+LETTER = dict(zip('cMmaigx', ACCESS + ('clear',)))
 
 
 class EqFalse:
@@ -112,13 +115,12 @@ def _is_in(obj, seq):
 
 
 class HandleDriver:
-    def __init__(self, spec, merge=True):
+    def __init__(self, spec):
         self.spec = spec
-        self.merge = merge
-        self.name = ('fixpoint/' if merge else 'histories/') + spec
+        self.name = 'fixpoint/' + spec
 
     def params(self):
-        return dict(value=self.spec, merge_states=self.merge,
+        return dict(value=self.spec,
                     ops=list(ACCESS) + ['clear'])
 
     # -- construction ---------------------------------------------------
@@ -180,6 +182,7 @@ class HandleDriver:
                 ctx.hits['clear_twice'] += 1
             if ctx.accessed:
                 ctx.had_epoch = True
+                ctx.hits['clear_cached'] += 1
             ctx.accessed = False
             ctx.epoch_obj = None
             h.hx_loads = 0          # harness counter: new epoch
@@ -231,6 +234,8 @@ class HandleDriver:
         # named shortcuts
         if first and ctx.had_epoch:
             ctx.hits['reload_after_clear'] += 1
+        elif first:
+            ctx.hits['first_load'] += 1
         if not first:
             ctx.hits['cache_hit'] += 1
             if BAND[self.spec] == 'falsy':
@@ -275,8 +280,6 @@ class HandleDriver:
 
     # -- canonical key --------------------------------------------------
     def key(self, ctx):
-        if not self.merge:
-            return ('history', ctx.hist)
         h = ctx.h
 
         def namer(o):
@@ -295,11 +298,27 @@ class HandleDriver:
 def drivers(tier):
     d = {}
     for spec in VALUES:
-        drv = HandleDriver(spec, merge=True)
+        drv = HandleDriver(spec)
         d[drv.name] = (drv, dict(max_depth=12))
-        drv = HandleDriver(spec, merge=False)
-        d[drv.name] = (drv, dict(max_depth=DEPTH[tier]))
     return d
+
+
+# -- every history of length D, no state merging -------------------------
+def history_cases(depth):
+    import itertools
+    words = [''.join(w) for w in itertools.product(LETTER, repeat=depth)]
+    return [(spec, w) for spec in VALUES for w in words]
+
+
+def run_history(case):
+    spec, word = case
+    driver = HandleDriver(spec)
+    ctx = driver.initial()
+    driver.check(ctx)
+    for letter in word:
+        driver.apply(ctx, (LETTER[letter],))
+        driver.check(ctx)
+    return {'calls': len(word), 'hits': dict(ctx.hits), 'key': case}
 
 
 def run(tier, rep):
@@ -311,9 +330,9 @@ def run(tier, rep):
         'are decided by the counter alone',
         'the oracle compares loaded values by identity only (never == or '
         'truth value)',
-        '"histories/<value>" parts are depth bounded by construction (no '
-        'state merging): their depth cap is the stated bound, the fixpoint '
-        'parts carry the unbounded claim (conditional on DESIGN.md 2.5)',
+        'the "histories" part is bounded by its length D (quick 4, '
+        'thorough 6); the fixpoint parts carry the unbounded claim '
+        '(conditional on the key argument of DESIGN.md 2.5)',
         'Loop.switch(clear_*) (desper/loop.py, second anchor) reaches '
         'Handle.clear() and is exercised by C13, not here',
     ]
@@ -324,17 +343,24 @@ def run(tier, rep):
     for name, (driver, kw) in drivers(tier).items():
         stats = kernel.explore(driver, rep, part=name,
                                params=driver.params(), **kw)
-        if driver.merge:
-            closed[driver.spec] = dict(states=stats['states'],
-                                       depth=stats['depth'])
-    # the depth cap of the history parts is their stated bound, not a
-    # shortfall: keep it visible in rep.extra, and keep `exhaustive` honest
-    # (the report marks the run as capped because of them).
+        closed[driver.spec] = dict(states=stats['states'],
+                                   depth=stats['depth'])
     rep.extra['fixpoint_closed'] = closed
-    rep.extra['history_depth'] = DEPTH[tier]
+    depth = DEPTH[tier]
+    cases = history_cases(depth)
+    kernel.enumerate_cases(run_history, cases, rep, 'histories',
+                           params=dict(length=depth, ops=''.join(LETTER),
+                                       letters=LETTER, values=list(VALUES)),
+                           chunk=max(200, len(cases) // 400))
 
 
 def replay(rec):
+    if rec['part'] == 'histories':
+        try:
+            run_history(tuple(rec['case']))
+        except Violation as v:
+            return v
+        return None
     ds = drivers('thorough')
     if rec['part'] in ds:
         return kernel.replay_case(ds[rec['part']][0], rec['case'])
